@@ -13,7 +13,7 @@ LEVEL_TEXT = ("Static structural proof of necessary conditions: (R18.1) in creat
               "before any run; (R18.5) a backup becomes listed only past the two-entry test and both consistency "
               "raises. Byte identity, interruption at arbitrary I/O steps (the record write itself is not atomic) and "
               "idempotence of re-running are NOT decided.")
-LEVEL_EXTRA = 'Added after the seeded evaluation: (R18.2) the name tested by the same-name refusal is the name used by every write (no re-definition in between); (R18.4) the data tree is scanned (file list, task parsing) only after the restore. The same-name refusal also consults the file system; the task filter is not a substring test. (R18.5) a backup key is the relative path joined unchanged. (R18.6) no case normalisation of path components in get_path_components / get_file_key.'
+LEVEL_EXTRA = 'Added after the seeded evaluation: (R18.2) the name tested by the same-name refusal is the name used by every write (no re-definition in between); (R18.4) the data tree is scanned (file list, task parsing) only after the restore. The same-name refusal also consults the file system; the task filter is not a substring test. (R18.5) a backup key is the relative path joined unchanged. (R18.6) no case normalisation of path components in get_path_components / get_file_key. (R18.7) every caller of the consistency check tests both discrepancy lists and raises.'
 
 COPY_NAMES = ("copy", "copy2", "copyfile", "copytree", "move")
 
@@ -346,6 +346,33 @@ def run(ctx):
                           "`sub-A02`, so restore writes a new tree and leaves the modified files as they are",
                           desc="%s: %s keeps the spelling" % (fn.short, c.func.attr))
     ctx.floor("R18.6", "path calls in get_path_components/get_file_key", n_path, 4)
+
+    # ---------------- R18.7: a backup is listed only after both discrepancy lists of the consistency check were tested
+    ctx.rule("R18.7", "every caller of _check_backup_consistency tests both discrepancy lists and raises")
+    bm18 = prog.find_class("BackupManager")
+    n_cc = 0
+    for m in bm18.methods.values():
+        if m.name == "_check_backup_consistency":
+            continue
+        pm18 = {id(ch): p for p in ast.walk(m.node) for ch in ast.iter_child_nodes(p)}
+        for c in walk_no_nested(m.node):
+            if not (isinstance(c, ast.Call) and call_name(c) == "_check_backup_consistency"):
+                continue
+            n_cc += 1
+            ctx.saw(m)
+            par = pm18.get(id(c))
+            names = []
+            if isinstance(par, ast.Assign) and par.value is c and len(par.targets) == 1 and isinstance(par.targets[0], ast.Tuple):
+                names = [e.id if isinstance(e, ast.Name) else None for e in par.targets[0].elts]
+            tested = 0
+            for nm in names[1:3]:
+                if nm and any(isinstance(i, ast.If) and any(isinstance(x, ast.Name) and x.id == nm for x in ast.walk(i.test))
+                              and any(isinstance(b, ast.Raise) for b in i.body) for i in walk_no_nested(m.node)):
+                    tested += 1
+            ctx.check(len(names) == 3 and tested == 2, "R18.7", m.qualname, c, loc(m, c),
+                      "the result of the consistency check is used without testing both discrepancy lists (files not recorded / recorded "
+                      "files missing): a backup whose recorded files are missing gets listed", desc="%s tests both discrepancy lists" % m.short)
+    ctx.floor("R18.7", "callers of _check_backup_consistency", n_cc, 1)
 
 
 def _negated(test):
